@@ -2,6 +2,7 @@
 //! fn: pallas_addresses::byron::ByronAddress::{from_bytes,new,from_decoded,to_vec} and its derived minicbor Decode/Encode
 //! fn: pallas_addresses::Address::from_bytes (type 8 dispatch: bytes_to_address, parse_type_8)
 //! fn: pallas_codec::utils::TagWrap<ByteVec,24> Decode/Encode
+//! stub: pallas_codec::minicbor::encode::Error::write -> Error::message on every harness (a parse path that re-encodes would otherwise hit a Kani compiler ICE)
 //! stub: std::fmt::format -> empty String
 //! stub: minicbor::encode::Error::write -> Error::message (to_vec legs only)
 //! outside: base58 text leg (ByronAddress::{from_base58,to_base58}, trusted dependency `base58`); Address::from_str (tries bech32 and base58 first); payloads longer than 6 bytes on the bytes->value side (the decoder does not look at payload content, real payloads are ~30-80 bytes)
@@ -73,6 +74,7 @@ macro_rules! parse_min {
         #[kani::proof]
         #[kani::unwind($unw)]
         #[kani::stub(std::fmt::format, crate::stubs::fmt_format_stub)]
+        #[kani::stub(pallas_codec::minicbor::encode::Error::write, crate::stubs::mcb_write_err_stub)]
         fn $name() {
             const N: usize = $n;
             let p: [u8; N] = kani::any();
@@ -136,6 +138,7 @@ parse_min!(c19_t_parse_via_address_n6, 6, 10, address);
 #[kani::proof]
 #[kani::unwind(10)]
 #[kani::stub(std::fmt::format, crate::stubs::fmt_format_stub)]
+#[kani::stub(pallas_codec::minicbor::encode::Error::write, crate::stubs::mcb_write_err_stub)]
 fn c19_t_parse_nonminimal_heads() {
     let p: [u8; 2] = kani::any();
     let c: [u8; 4] = kani::any();
@@ -152,6 +155,7 @@ fn c19_t_parse_nonminimal_heads() {
 #[kani::proof]
 #[kani::unwind(10)]
 #[kani::stub(std::fmt::format, crate::stubs::fmt_format_stub)]
+#[kani::stub(pallas_codec::minicbor::encode::Error::write, crate::stubs::mcb_write_err_stub)]
 fn c19_t_parse_indefinite_array() {
     let p: [u8; 2] = kani::any();
     let c: [u8; 4] = kani::any();
@@ -172,6 +176,7 @@ macro_rules! roundtrip {
         #[kani::proof]
         #[kani::unwind($unw)]
         #[kani::stub(std::fmt::format, crate::stubs::fmt_format_stub)]
+        #[kani::stub(pallas_codec::minicbor::encode::Error::write, crate::stubs::mcb_write_err_stub)]
         fn $name() {
             const N: usize = $n;
             let p: [u8; N] = kani::any();
@@ -297,6 +302,7 @@ fn c19_q_crc_lib_vs_bitwise() {
 #[kani::proof]
 #[kani::unwind(10)]
 #[kani::stub(std::fmt::format, crate::stubs::fmt_format_stub)]
+#[kani::stub(pallas_codec::minicbor::encode::Error::write, crate::stubs::mcb_write_err_stub)]
 fn c19_v_twin() {
     let p: [u8; 2] = kani::any();
     let b = [0x82, 0xd8, 0x18, 0x42, p[0], p[1], 0x1a, 0, 0, 0, 0];
@@ -304,3 +310,64 @@ fn c19_v_twin() {
     assert!(r.is_err(), "twin: must fail");
     core::mem::forget(r);
 }
+
+// ---------------------------------------------------------------------------------------------
+// bytes -> value on a *structured* payload that is a valid but non-canonical AddressPayload encoding:
+// [root(28 bytes), attributes, type]; the checksum must still be taken over the bytes that were received
+// (a parser that re-encodes the decoded payload before checksumming accepts a wrong CRC here).
+// ---------------------------------------------------------------------------------------------
+macro_rules! parse_structured {
+    ($name:ident, $plen:expr, [$($tail:expr),*]) => {
+        #[kani::proof]
+        #[kani::unwind(70)]
+        #[kani::stub(std::fmt::format, crate::stubs::fmt_format_stub)]
+        #[kani::stub(pallas_codec::minicbor::encode::Error::write, crate::stubs::mcb_write_err_stub)]
+        fn $name() {
+            const N: usize = $plen;
+            // payload: 83 58 1c <28 x 0x11> <tail>
+            let tail: [u8; N - 31] = [$($tail),*];
+            let mut p = [0x11u8; N];
+            p[0] = 0x83;
+            p[1] = 0x58;
+            p[2] = 0x1c;
+            let mut i = 0;
+            while i < N - 31 {
+                p[31 + i] = tail[i];
+                i += 1;
+            }
+            let c: [u8; 4] = kani::any();
+            // 82 d8 18 58 N payload 1a crc
+            let mut b = [0u8; 5 + N + 5];
+            b[0] = 0x82;
+            b[1] = 0xd8;
+            b[2] = 0x18;
+            b[3] = 0x58;
+            b[4] = N as u8;
+            let mut i = 0;
+            while i < N {
+                b[5 + i] = p[i];
+                i += 1;
+            }
+            b[5 + N] = 0x1a;
+            b[6 + N] = c[0];
+            b[7 + N] = c[1];
+            b[8 + N] = c[2];
+            b[9 + N] = c[3];
+            let want = CRC_REF.checksum(&p);
+            let r = ByronAddress::from_bytes(&b);
+            kani::cover!(r.is_ok(), "accepted for the right checksum");
+            kani::cover!(r.is_err(), "rejected for a wrong checksum");
+            if let Ok(a) = &r {
+                assert!(a.crc == u32::from_be_bytes(c), "decoded crc field is the encoded integer");
+                assert!(a.crc == want, "accepted address: crc field == CRC32(payload bytes as received)");
+            }
+            core::mem::forget(r);
+        }
+    };
+}
+const CRC_REF: crc::Crc<u32> = crc::Crc::<u32>::new(&crc::CRC_32_ISO_HDLC);
+// bound: concrete structured payloads (root = 28 x 0x11), checksum bytes symbolic: canonical `a0 00`, non-minimal type `a0 18 00`, non-minimal map head `b8 00 00`, indefinite map `bf ff 00`; unwind 70
+parse_structured!(c19_q_parse_structured_canonical, 33, [0xa0, 0x00]);
+parse_structured!(c19_q_parse_structured_nonminimal_type, 34, [0xa0, 0x18, 0x00]);
+parse_structured!(c19_q_parse_structured_nonminimal_map, 34, [0xb8, 0x00, 0x00]);
+parse_structured!(c19_t_parse_structured_indef_map, 34, [0xbf, 0xff, 0x00]);
